@@ -36,6 +36,12 @@ func (fc *FnCtx) doCall(cc *ssa.CallCommon, pos token.Pos, site ssa.Instruction)
 	fv := fc.operand(cc.Value)
 	fc.oblige("nil", "call", not(eq(fv.L[0], bvLit(0, 64))), pos, "call of nil function value")
 	fc.anchorBefore("call dynamic", pos)
+	if isCancelFunc(cc.Value) {
+		fc.noteTrusted("context.CancelFunc: cancelling a context has no effect on the state modelled here")
+		r := fc.freshValWF("cancel", resT)
+		fc.anchorAfter("call dynamic", pos)
+		return r
+	}
 	if par, ok := cc.Value.(*ssa.Parameter); ok && fc.c != nil && fc.c.Callbacks[par.Name()] {
 		fc.noteTrusted("callback parameter " + par.Name() + " of " + fc.name + " assumed to modify nothing visible here")
 		r := fc.freshValWF("cb", resT)
@@ -1094,4 +1100,25 @@ func (fc *FnCtx) eltRefNamed(base, idx string) string {
 	r := fc.define(fc.fresh("elt"), SortRef, fc.eltRef(base, idx))
 	fc.axiom(and(eq(app("elt_base", r), base), eq(app("elt_idx", r), idx), eq(app("sub_fid", r), bvLit(2, 16)), not(eq(r, bvLit(0, 64)))))
 	return r
+}
+
+// isCancelFunc: v is the CancelFunc result of context.WithCancel / WithTimeout / WithDeadline.
+func isCancelFunc(v ssa.Value) bool {
+	ex, ok := v.(*ssa.Extract)
+	if !ok {
+		return false
+	}
+	call, ok := ex.Tuple.(*ssa.Call)
+	if !ok {
+		return false
+	}
+	f := call.Call.StaticCallee()
+	if f == nil {
+		return false
+	}
+	switch f.String() {
+	case "context.WithCancel", "context.WithTimeout", "context.WithDeadline":
+		return ex.Index == 1
+	}
+	return false
 }
